@@ -126,6 +126,9 @@ func filterColumns(row *ovsdb.Row, columns map[string]bool) *ovsdb.Row {
 	if row == nil {
 		return nil
 	}
+	if columns == nil {
+		return row
+	}
 	new := make(ovsdb.Row, len(*row))
 	for k, v := range *row {
 		if _, ok := columns[k]; ok {
@@ -161,10 +164,13 @@ func (m *monitor) filter(update database.Update) ovsdb.TableUpdates {
 		}
 		tu := ovsdb.TableUpdate{}
 		columns, sel := m.requested(table)
-		cols := make(map[string]bool)
-		cols["_uuid"] = true
-		for _, c := range columns {
-			cols[c] = true
+		var cols map[string]bool
+		if columns != nil {
+			cols = make(map[string]bool)
+			cols["_uuid"] = true
+			for _, c := range columns {
+				cols[c] = true
+			}
 		}
 		_ = update.ForEachRowUpdate(table, func(uuid string, ru2 ovsdb.RowUpdate2) error {
 			ru := &ovsdb.RowUpdate{}
@@ -175,7 +181,7 @@ func (m *monitor) filter(update database.Update) ovsdb.TableUpdates {
 			case ru.Modify() && sel.Modify():
 				fallthrough
 			case ru.Delete() && sel.Delete():
-				if len(cols) == 0 {
+				if ru2.Modify != nil && len(*filterColumns(ru2.Modify, cols)) == 0 {
 					return nil
 				}
 				ru.New = filterColumns(ru.New, cols)
@@ -184,7 +190,9 @@ func (m *monitor) filter(update database.Update) ovsdb.TableUpdates {
 			}
 			return nil
 		})
-		tus[table] = tu
+		if len(tu) > 0 {
+			tus[table] = tu
+		}
 	}
 	return tus
 }
@@ -201,10 +209,13 @@ func (m *monitor) filter2(update database.Update) ovsdb.TableUpdates2 {
 		}
 		tu2 := ovsdb.TableUpdate2{}
 		columns, sel := m.requested(table)
-		cols := make(map[string]bool)
-		cols["_uuid"] = true
-		for _, c := range columns {
-			cols[c] = true
+		var cols map[string]bool
+		if columns != nil {
+			cols = make(map[string]bool)
+			cols["_uuid"] = true
+			for _, c := range columns {
+				cols[c] = true
+			}
 		}
 		_ = update.ForEachRowUpdate(table, func(uuid string, ru2 ovsdb.RowUpdate2) error {
 			switch {
@@ -213,17 +224,19 @@ func (m *monitor) filter2(update database.Update) ovsdb.TableUpdates2 {
 			case ru2.Modify != nil && sel.Modify():
 				fallthrough
 			case ru2.Delete != nil && sel.Delete():
-				if len(cols) == 0 {
-					return nil
-				}
 				ru2.Insert = filterColumns(ru2.Insert, cols)
 				ru2.Modify = filterColumns(ru2.Modify, cols)
 				ru2.Delete = filterColumns(ru2.Delete, cols)
+				if ru2.Modify != nil && len(*ru2.Modify) == 0 {
+					return nil
+				}
 				tu2[uuid] = &ru2
 			}
 			return nil
 		})
-		tus2[table] = tu2
+		if len(tu2) > 0 {
+			tus2[table] = tu2
+		}
 	}
 	return tus2
 }
